@@ -169,11 +169,11 @@ pub fn spec(id: &str) -> Option<PropSpec> {
         },
         "C07" => PropSpec {
             id: "C07",
-            level: "exploration",
-            families: vec![(Family::C07, 100)],
-            quick_runs: 30_000,
-            thorough_runs: 2_500_000,
-            rule: "one run = a base scenario (0..4 inbound publishes with gated handlers and payloads arriving in pieces, 0..3 sender tasks awaiting acks or parked on a window of 1..2, optional write back-pressure) and one termination cause drawn from: FIN / RST / write error at a step drawn uniformly over the run, undecodable bytes or a packet cut short followed by FIN, protocol violation (second CONNECT, unknown topic alias, duplicate id), failing publish/protocol handlers, keep-alive expiry on the simulated clock, local close / close_with_reason / force_close, peer DISCONNECT; control(Stop) gated in half of the runs and answering none / own DISCONNECT / error; every run ends with a closing FIN. Oracle at final quiescence: exactly one Stop once the connection's services exist, its class names a cause present in the history (or a documented consequence of one), the connection task completed, every started send / ready() resolved (Disconnected when it was pending across the end), no handler left waiting, a handler cancelled only after the Stop notification had been handled, a waiting payload reader observed an error, no panic; distinct = distinct abstract history signature; non-trivial = a handler invocation or a send was in flight when the connection ended",
+            level: "fault_enumeration",
+            families: vec![(Family::C07, 60), (Family::C07X, 40)],
+            quick_runs: 40_000,
+            thorough_runs: 3_000_000,
+            rule: "two families. (1) C07X, fault enumeration: a base scenario (0..4 inbound publishes of 0..40 payload bytes with gated / held handlers, eager / lazy / abandoning payload readers, 0..3 sender tasks awaiting acks or parked on a window of 1..2, optional write back-pressure, control(Stop) gated or not) is drawn from one seed; then EVERY fault point of the grid is executed against it, all other draws being identical: peer FIN, peer RST and a write error at each simulator step 1..96, the peer's byte stream ending with FIN and with RST after each byte offset 0..255 (bytes beyond it never arrive: truncated CONNECT, truncated fixed header, truncated payload ...), and the endpoint's writes failing after each output byte offset 0..127; 928 fault points per base scenario, points that lie beyond the end of the scenario leave it to the closing FIN. (2) C07, seeded sweep: larger base scenarios (payloads up to 2000 bytes) and one termination cause drawn from: FIN / RST / write error at a step drawn uniformly over the run, undecodable bytes or a packet cut short followed by FIN, protocol violation (second CONNECT, unknown topic alias, duplicate id), failing publish/protocol handlers, keep-alive expiry on the simulated clock, local close / close_with_reason / force_close, peer DISCONNECT; control(Stop) gated in half of the runs and answering none / own DISCONNECT / error; every run ends with a closing FIN. Oracle at final quiescence (both families): exactly one Stop once the connection's services exist, its class names a cause present in the history (or a documented consequence of one), the connection task completed, every started send / ready() resolved (Disconnected when it was pending across the end), no handler left waiting, a handler cancelled only after the Stop notification had been handled, a waiting payload reader observed an error, no panic; distinct = distinct abstract history signature; non-trivial = a handler invocation or a send was in flight when the connection ended",
             nontrivial: nt_c07,
             assumptions: base,
         },
